@@ -325,6 +325,9 @@ func c16Join(h *H) {
 			case "inner-fails":
 				if calls != 1 || !sameErr(res[n], inj) {
 					h.bad16("wrong-error", fmt.Sprintf("f called %d times; f's error not returned", calls))
+				} else if i, z := allZero(res[:n]); !z {
+					// f is the failing stage and hands back non-zero values next to its error
+					h.bad16("inner-failure-results-not-zero", fmt.Sprintf("f failed: result %d is %s", i, Show(res[i])))
 				}
 			default:
 				if calls != 1 || !res[n].IsNil() || !eqStrs(canons(res[:n]), canons(outs[:nf-1])) {
